@@ -131,7 +131,7 @@ class Target:
         if kind != "discovery" and self.version.startswith("v3"):
             r, e = ops.run_op(self.client, ("get", self.oids[0]))  # discovery up front
             if e is not None:
-                raise world.HarnessError("seed %s: clean exchange fails: %r" % (self.name, e))
+                raise world.ScenarioUnavailable("seed %s: clean exchange fails: %r" % (self.name, e))
 
     # -- hooks ----------------------------------------------------------------
     def _error(self, agent, req, resp):
